@@ -101,11 +101,18 @@ class Monitor(object):
         if walk(st):
             self.violate("negative_count", {"tracked": st})
 
+    def on_pre_event(self, node, et):
+        # the boundary seam IS the tracker's timestamp(): an event that was not followed by it is seen here
+        if getattr(self, "_open", None) is not None:
+            self.violate("event_without_timestamp", {"event": list(self._open), "next_event_at": self.hub.Q.current_time})
+        self._open = (self.hub.Q.current_time, getattr(node, "id_number", 0), et)
+
     def on_init(self, Q):
         s = self.check_state(Q)
         self.timeline.append((Q.current_time, s))
 
     def on_boundary(self, Q):
+        self._open = None
         s = self.check_state(Q)
         # the instant of the event just executed, read BEFORE the event (the boundary seam is the tracker's own
         # timestamp() call, so the clock at the boundary would follow a misplaced call)
@@ -114,6 +121,8 @@ class Monitor(object):
     # ---- history and probabilities ----------------------------------------------------------------------
     def on_end(self, Q, status, exc):
         self.validated = 1
+        if status == "ok" and getattr(self, "_open", None) is not None and self.hub.entry[0] in ("max_time", "max_customers"):
+            self.violate("event_without_timestamp", {"event": list(self._open), "next_event_at": "end of run"})
         if status != "ok" or Q is None or self.hub.entry[0] not in ("max_time", "max_customers") or self.hub.violations:
             return
         tr = Q.statetracker
